@@ -77,8 +77,13 @@ def _clamps(prog, rep, qual, var, after_assign=True):
         ok = len(lows) == 1 and len(highs) == 1
         if ok:
             ok = _same_bound(*lows[0]) and _same_bound(*highs[0])
+        # found-but-wrong is the violation (one side only, or bounds that do
+        # not match); no clamp recognised at all (a helper, np.where, ...)
+        # is not decided here
+        none_found = not lows and not highs
         rep.add('P-two-sided', qual, 'clamps after %s'
-                % paths.src(mod, node)[:60], 'ok' if ok else 'violation',
+                % paths.src(mod, node)[:60], 'ok' if ok else (
+                    'unknown' if none_found else 'violation'),
                 '' if ok else 'after this assignment both clamps (%s < lo -> '
                 'lo and %s > hi -> hi, with matching bounds) must follow; '
                 'found low=%s high=%s' % (var, var, lows, highs),
